@@ -227,3 +227,23 @@ Proof.
   destruct (queue_back q0 (free s)) eqn:E2; destruct (queue_back q0 fq) eqn:E3; cbn [andb]; try discriminate. intros _.
   split; [|split; apply queue_back_sound; assumption]. apply Nat.eqb_eq in E1. destruct (active s); [reflexivity| discriminate].
 Qed.
+
+(* ---------------- what the extended mechanism shows to an observer ----------------
+   The run-function of job j is called when the job is admitted (serial backend) or picked up by a pool thread (thread
+   backend); it ends when it returns, raises, is cancelled by close() (serial backend: the coroutine is cancelled) or, for
+   a zombie of the thread backend, when the thread returns. *)
+Definition xobs1 (W : nat) (thr : bool) (s : xs) (e : xev) : list oobs :=
+  if xerr s then [] else if negb (xenabled s e) then [] else
+  match e with
+  | XRun j => if thr then [] else [ObsStart j (xres (xget s j))]
+  | XStart j => if Nat.ltb (xbusy s) W then [ObsStart j (xres (xget s j))] else []
+  | XFinish j | XFail j | XZombieEnd j => [ObsEnd j]
+  | XClose => if thr then []
+              else flat_map (fun j => match xph (xget s j) with XRunning => [ObsEnd j] | _ => [] end) (seq 0 (length (xjobs s)))
+  | _ => []
+  end.
+Fixpoint xobs_trace (pop W : nat) (thr : bool) (s : xs) (sched : list xev) : list oobs :=
+  match sched with
+  | [] => []
+  | e :: t => xobs1 W thr s e ++ xobs_trace pop W thr (xstep pop W thr s e) t
+  end.
